@@ -729,7 +729,7 @@ impl Table for SdtT {
         "sdt"
     }
     fn kinds(&self) -> &'static [&'static str] {
-        &["append_u8", "append_u16", "append_u32", "append_u64", "append_slice", "write_u8", "write_u32", "sink_byte", "write_u64 running past the end (refusable)"]
+        &["append_u8", "append_u16", "append_u32", "append_u64", "append_slice", "write_u8", "write_u32", "sink_byte", "write_u64 running past the end (refusable)", "write_u32(4, len + shape): Length announced ahead of an append"]
     }
     fn ctors(&self, level: u8) -> Vec<Ctor> {
         if level == 0 {
@@ -764,6 +764,12 @@ impl Table for SdtT {
             }
         }
         v.push(Op::new(7, 0, 1));
+        // the caller writes the Length field itself, to a value RELATED to the state: what it is now, what it will be after
+        // the next append of 1 / 3 / 8 bytes (the value principle: a write that "changes nothing" or an append whose own
+        // Length update "changes nothing" is where a skipped recomputation hides)
+        for d in if level > 0 { &[0u16, 1, 2, 3, 8][..] } else { &[1u16, 3][..] } {
+            v.push(Op::new(9, *d, 1));
+        }
         // a write that starts inside the table and runs past its end: refused, table unchanged (offered once per history)
         if level > 0 && !h.iter().any(|o| o.k == 8) {
             v.push(Op::new(8, (len - 3) as u16, 2));
@@ -788,6 +794,10 @@ impl Table for SdtT {
                     if crate::util::catch(|| t.write_u64(op.shape as usize, f.u64(0))).is_err() {
                         crate::seq::note_refused(i);
                     }
+                }
+                9 => {
+                    let l = t.len() as u32 + op.shape as u32;
+                    t.write_u32(4, l)
                 }
                 _ => acpi_tables::AmlSink::byte(&mut t, f.u8(0)),
             }
@@ -820,6 +830,10 @@ impl Table for SdtT {
                 3 => app(&mut w, &f.u64(0).to_le_bytes()),
                 4 => app(&mut w, &f.arr::<8>(0)[..op.shape as usize]),
                 5 => w.0[op.shape as usize] = f.u8(0),
+                9 => {
+                    let l = w.len() as u32 + op.shape as u32;
+                    w.put32(4, l);
+                }
                 8 => {
                     // in range: a plain write; running past the end: refused, nothing changes
                     let o = op.shape as usize;
@@ -849,6 +863,7 @@ impl Table for SdtT {
             1 => vec![U(16)],
             2 | 6 => vec![U(32)],
             3 | 8 => vec![U(64)],
+            9 => vec![],
             _ => vec![A(8)],
         }
     }
